@@ -369,9 +369,12 @@ class VmControlData(TlbScheme):
         else:
             builder.store_bit_int(0)
 
-        if value.stack:
+        if value.stack is not None:
             builder.store_bit_int(1)
-            builder.store_cell(value.stack)
+            stack = value.stack
+            if not isinstance(stack, Cell):  # a list of values, the form deserialize returns
+                stack = VmStack.serialize(stack)
+            builder.store_cell(stack)
         else:
             builder.store_bit_int(0)
 
